@@ -604,6 +604,13 @@ def handle (j : Json) : E Json := do
     let dup := (tpls.map Prod.fst).eraseDups.length != tpls.length
     let out : Json := if dup then "tplerr" else ruleOutJson (M.applyTemplates tpls r)
     pure (Json.mkObj [("model", Json.mkObj [("outs", Json.arr #[out])])])
+  | "pathbytes" =>
+    -- the expected text is the lossy decoding computed by Rust's std (trusted); a path resolves to it as a string
+    let ps ← (← j.getObjVal? "paths").getArr?
+    let outs ← ps.toList.mapM (fun p => do
+      let t ← (← p.getObjVal? "lossy").getStr?
+      pure (valueJson (.str t.toList)))
+    pure (Json.mkObj [("model", Json.arr outs.toArray)])
   | "tpl_api" =>
     -- calls on one `Templates` value: ["insert", name, text] | ["extend", [[name, text], ...]]; then the rule is templated
     let calls := (← (← j.getObjVal? "calls").getArr?).toList
@@ -664,11 +671,22 @@ def handle (j : Json) : E Json := do
     let (c2, rl) : Compiler × Json := match M.Compiler.load c1 r with
       | .ok c => (c, "ok")
       | .error e => (c1, compErrJson e)
-    let (c3, err) := M.Compiler.compile x c2
+    let lateCalls ← match jOpt j "late_calls" with
+      | none => pure []
+      | some lc => (← lc.getArr?).toList.mapM (fun c => do
+        (← c.getArr?).toList.mapM (fun d => do
+          (← d.getArr?).toList.mapM (fun e => do
+            let k ← (← e.getArrVal? 0).getStr?
+            let v ← (← e.getArrVal? 1).getStr?
+            pure (k.toList, v.toList))))
+    let (c2', late) := loadCalls lateCalls c2 []
+    let (c3, err) := M.Compiler.compile x c2'
     let rules : Json := match err with
       | some e => compErrJson e
       | none => Json.arr (c3.rules.map ruleOutJson).toArray
-    pure (Json.mkObj [("model", Json.mkObj [("outs", Json.arr #[Json.mkObj [("loads", Json.arr loads.toArray), ("rule_load", rl), ("rules", rules)]])])])
+    let fields := [("loads", Json.arr loads.toArray), ("rule_load", rl)] ++
+      (if lateCalls.isEmpty then [] else [("late", Json.arr late.toArray)]) ++ [("rules", rules)]
+    pure (Json.mkObj [("model", Json.mkObj [("outs", Json.arr #[Json.mkObj fields])])])
   | "history" =>
     let x : Ext := { fparse := fun _ => none, rxOk := fun _ => true, rxMatch := fun _ _ => false }
     let ops := (← (← j.getObjVal? "ops").getArr?).toList
